@@ -161,6 +161,12 @@ func c19Eval(c *vk.Case, ds *Dataset, n int, text string) (rset, error) {
 	return rset(got), nil
 }
 
+// sameEntryExact also compares the labels a failing stage sets: a filter that cannot fail (line filters,
+// string matchers) leaves them as the stages before it wrote them.
+func sameEntryExact(a, b flatEntry) bool {
+	return a.Line == b.Line && mapsEqual(a.Labels, b.Labels)
+}
+
 func sameEntry(a, b flatEntry, withLabels bool) bool {
 	if a.Line != b.Line {
 		return false
@@ -275,6 +281,10 @@ func runC19(r *vk.Run) {
 			b, ok := base[ts]
 			if !ok || !sameEntry(b, e, true) {
 				c.Fail("", fmt.Sprintf("R(q|f) not a subset of R(q): record ts=%d line=%q (in R(q): %v)", ts, e.Line, ok), det(map[string]any{"Rq": keysOf(base), "Rqf": keysOf(rf)}))
+				return
+			}
+			if (strings.HasPrefix(f.Kind, "line-") || f.Kind == "label-eq" || f.Kind == "label-regex") && !sameEntryExact(b, e) {
+				c.Fail("", fmt.Sprintf("R(q|f): record ts=%d carries labels %s, in R(q) it carries %s (f cannot fail: %s)", ts, labelKey(e.Labels), labelKey(b.Labels), f.Text), det(nil))
 				return
 			}
 		}
@@ -488,7 +498,7 @@ func runC19(r *vk.Run) {
 			return
 		}
 		for ts, e := range re {
-			if b, ok := base[ts]; !ok || !sameEntry(b, e, true) {
+			if b, ok := base[ts]; !ok || !sameEntryExact(b, e) {
 				c.Fail("", fmt.Sprintf(`|= "" changed record ts=%d`, ts), det(nil))
 				return
 			}
